@@ -184,3 +184,11 @@ info('C18',
      ['whole-run equality (resume == uninterrupted) is a history property: bounded only',
       'engines other than TEBDEngine/TwoSiteDMRGEngine: not resumed'],
      ['Path.exists/unlink/rename and _save_to_file obey their POSIX ghost contracts (rename is an atomic replace)'])
+info('C11',
+     'P: MPO.overlap argument handling for infinite MPOs: raises nothing for max_range in {None, inf, n} and contracts '
+     'max(L + 2 r, L\' + 2 r\') sites with L substituted for an unknown range (contracts/c_mpo.py). '
+     'B (bounded, not proof): finite MPOs from random term lists for every site family against dense operators: expectation value, '
+     'variance, sum, dagger, is_hermitian, is_equal (false positives and negatives), overlap, distance, to_TermList/from_term_list, '
+     'plus_identity, apply by every compression method within the reported error, error order of make_U_I/II.',
+     ['MPO numerics; infinite MPOs on a window; W tensors without identity markers: not covered'],
+     [])
